@@ -98,9 +98,13 @@ class Platform:
         if not is_system_include:
             local_paths += [this_path]
 
-        # Determine the path to the include file, if it exists
+        # Determine the path to the include file, if it exists.
+        # Candidates are resolved physically, as the compiler opens them:
+        # an include directory may be a symbolic link, in which case ".."
+        # in the name refers to the parent of the link's target, and the
+        # file must be recognised under its real path by "#pragma once".
         for path in local_paths + self._include_paths:
-            test_path = os.path.abspath(os.path.join(path, filename))
+            test_path = os.path.realpath(os.path.join(path, filename))
             if os.path.isfile(test_path):
                 include_file = test_path
                 self.found_incl[key] = include_file
